@@ -137,7 +137,7 @@ func (sc *vfScenario) round() uint32 {
 }
 
 // idleJump: when nothing is travelling (no datagram was emitted in the round just finished and
-// none is delayed) the only thing that can happen next is a retransmission timer of A firing;
+// none is delayed) the only thing that can happen next is a retransmission or probe timer of A firing;
 // the clock moves straight to the earliest one instead of ticking through idle flushes (the
 // back-off after k consecutive losses is 2^k * rto, far beyond any fixed number of 100 ms rounds).
 func (sc *vfScenario) idleJump(step uint32) uint32 {
@@ -151,6 +151,12 @@ func (sc *vfScenario) idleJump(step uint32) uint32 {
 			continue
 		}
 		if d := _itimediff(seg.resendts, sc.clock); best < 0 || vfConcreteBool(d < best) {
+			best = d
+		}
+	}
+	// ... or, with the peer's window closed, the zero-window probe timer (it backs off 1.5x per probe)
+	if sc.a.k.probe_wait > 0 && vfConcreteBool(sc.a.k.rmt_wnd == 0) {
+		if d := _itimediff(sc.a.k.ts_probe, sc.clock); best < 0 || vfConcreteBool(d < best) {
 			best = d
 		}
 	}
